@@ -7,7 +7,8 @@ use serde_json::json;
 use std::collections::BTreeSet;
 
 const ELIGIBLE_NAMES: [&str; 10] = ["A.sol", ".sol", "a b.sol", "合约.sol", "x.sol.sol", "T.SOL.sol", "UPPER.sol", "a.tt.sol", "at.sol", "t.sol"];
-const INELIGIBLE_NAMES: [&str; 47] = [
+const INELIGIBLE_NAMES: [&str; 52] = [
+    "run-1695731234567.json", "4294967296", "99999999999999999999.txt", "18446744073709551616.t.sol", "00000000000000000000000000000000000000001.md",
     "foundry.toml", "package.json", "hardhat.config.js", "remappings.txt", ".solhintignore", "Solstat.toml", "solstat_report.md", ".env", "brownie-config.yaml",
     "é.json", "設計.txt", "ü.md", "añb.txt", "ñ", "日本語.md", "résumé.txt", "é.t.sol", "合.SOL", "ö.sol~", "a\u{0301}.txt", "𝔘.dat",
     "a.SOL", "a.Sol", "a.sOl", "a.sol.bak", "a.sol~", "a.solx", "asol", "sol", "a.t.sol", "A.T.SOL", "a.T.sol", "a.t.Sol", ".t.sol", "Vault.t.sol",
@@ -103,6 +104,23 @@ fn gen_mixed(rng: &Rng, pool: &Pool, depth: usize, big: bool) -> (Vec<Ent>, Vec<
             }
         }
     }
+    // a chain of 45-60 nested one-letter directories around a small sub-tree
+    if depth == 0 && rng.chance(1, 12) {
+        let (w, wo, d) = gen_mixed(rng, pool, 2, false);
+        decoys.extend(d);
+        let (mut w, mut wo) = (w, wo);
+        for lvl in 0..rng.range(45, 60) {
+            let n = ((b'a' + (lvl % 26) as u8) as char).to_string();
+            w = vec![Ent::Dir { name: n.clone(), kids: w }];
+            wo = vec![Ent::Dir { name: n, kids: wo }];
+        }
+        if let Some(Ent::Dir { name, .. }) = w.first() {
+            if used.insert(name.clone()) {
+                with.extend(w);
+                without.extend(wo);
+            }
+        }
+    }
     // now and then a chain of directories with 200-byte names (paths of more than 1024 bytes) around a small sub-tree
     if depth == 0 && rng.chance(1, 10) {
         let (w, wo, d) = gen_mixed(rng, pool, 2, false);
@@ -194,7 +212,14 @@ pub fn run(ctx: &Ctx) -> i32 {
     let table = report::section_table();
     let n = ctx.tier.pick(1500u64, 20000u64);
     run_workload(ctx, &mut acc, "trees-inprocess", n, |k, rng, acc| {
-        let (with, without, decoys) = gen_mixed(rng, &pool, 0, ctx.tier == Tier::Thorough && rng.chance(1, 20));
+        let (mut with, without, mut decoys) = gen_mixed(rng, &pool, 0, ctx.tier == Tier::Thorough && rng.chance(1, 20));
+        // one tree per run (a few in the thorough tier) with more than 2^16 ineligible entries in one directory
+        if k == 7 || (ctx.tier == Tier::Thorough && k % 4000 == 11) {
+            let kids: Vec<Ent> = (0..66_000).map(|i| Ent::File { name: format!("junk{:05}.json", i), bytes: vec![] }).collect();
+            with.push(Ent::Dir { name: "cache-of-many".to_string(), kids });
+            decoys.push(("cache-of-many/junk00000.json".to_string(), "one-of-66000-empty-files"));
+            acc.cov("tree:directory-with-66000-ineligible-entries");
+        }
         let base = scratch_dir("c16");
         let (ra, rb) = (format!("{}/with", base), format!("{}/without", base));
         std::fs::create_dir_all(&ra).unwrap();
